@@ -246,3 +246,5 @@ pub fn bar_cells(_args: &[String]) -> String {
     }
     format!("{{\"found\": false, \"tried\": {}}}", tried)
 }
+
+
